@@ -108,7 +108,15 @@ def run_one(m):
         if m.get("roundtrip"):
             ov = roundtrip_overrides()
         else:
-            ov = overrides_from_patch(m["patch"]) if "patch" in m else apply_edits(m["edits"])
+            if "patch" in m:
+                ov = overrides_from_patch(m["patch"])
+                for mod, old_, new_ in m.get("edits", []):  # a mutation on top of a refactoring
+                    src = ov.get(mod) or open(os.path.join(REPO_ROOT, "websocket", f"{mod}.py"), encoding="utf-8").read()
+                    if src.count(old_) != 1:
+                        raise ValueError(f"edit anchor occurs {src.count(old_)} times in patched {mod}: {old_[:60]!r}")
+                    ov[mod] = src.replace(old_, new_)
+            else:
+                ov = apply_edits(m["edits"])
     except ValueError as e:
         return {"id": m["id"], "status": "STALE", "detail": str(e), "wall": 0}
     res = {}
@@ -136,8 +144,94 @@ def run_one(m):
     return {"id": m["id"], "status": "OK" if ok else "MISS", "expect": expect, "res": res, "wall": round(time.time() - t0, 2)}
 
 
+def stacked_mutants():
+    """Mutations applied on top of a behaviour-preserving refactoring: the generalised rules must keep their teeth there."""
+    base = os.path.join(os.path.dirname(os.path.dirname(os.path.abspath(__file__))), "seeded")
+    r = lambda d: os.path.join(base, d, "patch.diff")
+    S = []
+
+    def add(id_, prop, refactor, edits, rules=None):
+        if os.path.exists(r(refactor)):
+            S.append({"id": f"stacked-{id_}", "props": [prop], "patch": r(refactor), "edits": edits, "rules": rules, "expect": "violation"})
+
+    add("utils-r2-truncated-accepted", "C06", "refactor-utils-r2", [("_utils", "        return state == 0\n", "        return state != 12\n")], ["R-C06-1", "R-C06-2"])
+    add("utils-r2-table-entry", "C06", "refactor-utils-r2", [("_utils", "        12, 36, 12, 12, 12, 12, 12, 36, 12, 36, 12, 12,", "        12, 36, 12, 12, 12, 12, 12, 36, 12, 36, 36, 12,")], ["R-C06-1"])
+    add("utils-r2-reject-state", "C06", "refactor-utils-r2", [("_utils", "            if state == 12:", "            if state == 24:")], ["R-C06-1"])
+    # core r3: helpers _write_all / _trace_io / _send_control / _answer_ping
+    add("core-r3-write-all-unlocked", "C12", "refactor-core-r3", [("_core", "        with self.lock:\n            while buffer:\n                written = self._send(buffer)\n                buffer = buffer[written:]\n",
+                                                                     "        while buffer:\n            written = self._send(buffer)\n            buffer = buffer[written:]\n")], ["R-C12-1"])
+    add("core-r3-ping-bypasses-send-frame", "C01", "refactor-core-r3", [("_core", "        self._send_control(payload, ABNF.OPCODE_PING)\n", "        self._write_all(payload)\n")], ["R-C01-7", "R-C01-3"])
+    add("core-r3-trace-mutates-wire", "C01", "refactor-core-r3", [("_core", '            self._trace_io("Sent", data, frame)\n', '            self._trace_io("Sent", data, frame)\n            data = data[:-1]\n')], ["R-C01-8"])
+    add("core-r3-trace-helper-mutates-frame", "C01", "refactor-core-r3", [("_core", '        trace("++" + label + " raw: " + repr(wire))\n', '        frame.opcode = 0\n        trace("++" + label + " raw: " + repr(wire))\n')], ["R-C01-8"])
+    add("core-r3-ping-not-answered", "C07", "refactor-core-r3", [("_core", "            raise WebSocketProtocolException(\"Ping message is too long\")\n        self.pong(frame.data)\n", "            raise WebSocketProtocolException(\"Ping message is too long\")\n")])
+    # core r2: sentinel-driven receive loop
+    add("core-r2-pong-not-reported", "C07", "refactor-core-r2", [("_core", "        if (is_ping or frame.opcode == ABNF.OPCODE_PONG) and want_control:", "        if is_ping and want_control:")], ["R-C07-2"])
+    add("core-r2-fragments-delivered", "C04", "refactor-core-r2", [("_core", "            if assembler.is_fire(frame):\n                return assembler.extract(frame)\n            return _NOTHING_YET", "            return assembler.extract(frame)")])
+    add("core-r2-ping-limit-126", "C07", "refactor-core-r2", [("_core", "_MAX_CONTROL_PAYLOAD = 125", "_MAX_CONTROL_PAYLOAD = 0")])
+    # app r3: helpers _claim_teardown / _deliver / _ping_pong_timed_out, ping thread started inline
+    add("app-r3-teardown-claimed-twice", "C14", "refactor-app-r3", [("_app", "            if self.has_done_teardown:\n                return False\n", "            if False:\n                return False\n")])
+    add("app-r3-on-message-raw-bytes", "C13", "refactor-app-r3", [("_app", "            self._callback(self.on_message, data)\n", "            self._callback(self.on_message, frame.data)\n")])
+    add("app-r3-direct-callback-call", "C13", "refactor-app-r3", [("_app", "            self._callback(self.on_message, data)\n", "            self.on_message(self, data)\n")], ["R-C13-2"])
+    add("app-r3-timeout-ignores-missing-pong", "C16", "refactor-app-r3", [("_app", "            and (has_pong_not_arrived_after_last_ping or has_pong_arrived_too_late)", "            and has_pong_arrived_too_late")])
+    add("app-r3-stop-event-reused", "C16", "refactor-app-r3", [("_app", "                    self.stop_ping = threading.Event()\n", "")])
+    add("app-r3-two-ping-threads", "C15", "refactor-app-r3", [("_app", "                    self.ping_thread.start()\n", "                    self.ping_thread.start()\n                    threading.Thread(target=self._send_ping).start()\n")], ["R-C15-2"])
+    # app r2
+    add("app-r2-dispatcher-index", "C18", "refactor-app-r2", [("_app", "url_parts[3]", "url_parts[2]")], ["R-C18-5"])
+    add("app-r2-decode-inverted", "C13", "refactor-app-r2", [("_app", "                    if kind == _OP_TEXT and not skip_utf8_validation", "                    if kind == _OP_TEXT and skip_utf8_validation")])
+    # abnf refactors: constant flag fields, clamp spelled as if/else, _bit helper
+    add("abnf-r2-mask-bit-0x40", "C02", "refactor-abnf-r2", [("_abnf", "        has_mask = 1 if b2 & 0x80 else 0\n", "        has_mask = 1 if b2 & 0x40 else 0\n")])
+    add("abnf-r2-rsv1-bit", "C02", "refactor-abnf-r2", [("_abnf", "        rsv1 = 1 if b1 & 0x40 else 0\n", "        rsv1 = 1 if b1 & 0x20 else 0\n")], ["R-C02-1"])
+    add("abnf-r2-fin-inverted", "C02", "refactor-abnf-r2", [("_abnf", "        fin = 1 if b1 & 0x80 else 0\n", "        fin = 0 if b1 & 0x80 else 1\n")], ["R-C02-1"])
+    add("abnf-r3-mask-bit-6", "C02", "refactor-abnf-r3", [("_abnf", "        has_mask = _bit(b2, 7)\n", "        has_mask = _bit(b2, 6)\n")])
+    add("abnf-r3-flags-order", "C02", "refactor-abnf-r3", [("_abnf", "for position in (7, 6, 5, 4)]", "for position in (7, 5, 6, 4)]")], ["R-C02-1"])
+    add("abnf-r1-request-unclamped", "C17", "refactor-abnf-r1", [("_abnf", "            if missing < frame_buffer._RECV_CHUNK:\n                wanted = missing\n            else:\n                wanted = frame_buffer._RECV_CHUNK\n", "            wanted = missing\n")], ["R-C17-2"])
+    add("abnf-r1-request-over-shortage", "C02", "refactor-abnf-r1", [("_abnf", "            if missing < frame_buffer._RECV_CHUNK:\n                wanted = missing\n            else:\n                wanted = frame_buffer._RECV_CHUNK\n", "            wanted = frame_buffer._RECV_CHUNK\n")], ["R-C02-5"])
+    add("abnf-r2-no-progress-loop", "C17", "refactor-abnf-r2", [("_abnf", "            bytes_ = self.recv(min(16384, shortage))\n            self.recv_buffer.append(bytes_)\n            shortage = shortage - len(bytes_)\n",
+                                                                 "            if shortage > 16384:\n                continue\n            bytes_ = self.recv(min(16384, shortage))\n            self.recv_buffer.append(bytes_)\n            shortage = shortage - len(bytes_)\n")], ["R-C17-3"])
+    return S
+
+
+def auto_stacked():
+    """Every mutant of the corpus whose edit anchors survive a refactoring of the module it edits, re-applied on top of
+    that refactoring; the expectation is the mutant's own.  Measures that rules generalised for the refactorings keep
+    their sensitivity on the refactored code."""
+    base = os.path.join(os.path.dirname(os.path.dirname(os.path.abspath(__file__))), "seeded")
+    out = []
+    if not os.path.isdir(base):
+        return out
+    muts = _load()
+    for d in sorted(os.listdir(base)):
+        pp = os.path.join(base, d, "patch.diff")
+        if not d.startswith("refactor-") or not os.path.exists(pp):
+            continue
+        try:
+            ov = overrides_from_patch(pp)
+        except ValueError:
+            continue
+        for m in muts:
+            if m.get("expect", "violation") != "violation":
+                continue
+            mods = {e[0] for e in m["edits"]}
+            if not mods & set(ov):
+                continue
+            okay = True
+            for mod, old_, new_ in m["edits"]:
+                src = ov.get(mod)
+                if src is None:
+                    src = open(os.path.join(REPO_ROOT, "websocket", f"{mod}.py"), encoding="utf-8").read()
+                okay &= src.count(old_) == 1
+                if okay:
+                    try:
+                        compile(src.replace(old_, new_), mod, "exec", dont_inherit=True)  # syntax only; nothing is executed
+                    except SyntaxError:
+                        okay = False
+            if okay:
+                out.append({"id": f"auto-{d}+{m['id']}", "props": m["props"], "patch": pp, "edits": m["edits"], "rules": m.get("rules"), "expect": "violation"})
+    return out
+
+
 def selftest(jobs=16, only=None) -> int:
-    muts = _load() + seeded_mutants()
+    muts = _load() + seeded_mutants() + stacked_mutants() + auto_stacked()
     muts += [{"id": f"spec-reformat-whole-package-{i:02d}", "props": [f"C{i:02d}"], "roundtrip": True, "rules": None, "expect": "silent"} for i in range(1, 21)]
     if only:
         muts = [m for m in muts if only in m["id"] or only in m["props"]]
